@@ -355,7 +355,11 @@ var exclusions = []struct {
 
 // discover returns the classified readers sorted by name, the excluded names with
 // reasons, and the names that could be neither classified nor excluded.
-func discover() (rds []*reader, excluded map[string]string, unknown []string) {
+// unknown: names that parse as a reader but do not have a reader's signature (fatal: a
+// reader this check cannot call). unclassified: methods whose name is neither a reader
+// name nor on the exclusion list - helper methods added by a change; they are reported
+// in the evidence and the run continues (stopping would hide what the rest finds).
+func discover() (rds []*reader, excluded map[string]string, unknown []string, unclassified []string) {
 	excluded = map[string]string{}
 	for i := 0; i < tD.NumMethod(); i++ {
 		m := tD.Method(i)
@@ -396,9 +400,9 @@ func discover() (rds []*reader, excluded map[string]string, unknown []string) {
 			}
 		}
 		if !found {
-			unknown = append(unknown, name+": "+m.Type.String())
+			unclassified = append(unclassified, name+": "+m.Type.String())
 		}
 	}
 	sort.Slice(rds, func(i, j int) bool { return rds[i].name < rds[j].name })
-	return rds, excluded, unknown
+	return rds, excluded, unknown, unclassified
 }
